@@ -159,7 +159,7 @@ fn record(st: &mut Stats, d: &DataDesc, r: Result<bool, Failure>, case: impl Fn(
 }
 
 pub fn run(ctx: &mut Ctx) {
-    ctx.rule = "systematic sweep: every payload length 0..=242 x every FOpts length 0..=15 x 4 frame types x {Data, MacCommands} (+ no-payload) with random contents/keys/counters from the boundary set, through DefaultCrypto and DefaultNetworkCrypto, exact/short/long buffers; refusal grid (FOpts 16/17 and far beyond the limit: 18..65552 bytes incl. the lengths that wrap to 0..15 mod 256 / mod 65536, FOpts with port 0, missing AppSKey, short buffers); proptest-random descriptions; JoinRequest/JoinAccept descriptions (all DLSettings/RxDelay bytes, CFList none/type0/type1). Non-trivial: payload >= 17 bytes (>= 2 keystream blocks) or FCnt >= 2^16 or FOpts non-empty or a refusal case or JoinAccept with CFList; distinct by hash of the full case".into();
+    ctx.rule = "systematic sweep: every payload length 0..=242 x every FOpts length 0..=15 x 4 frame types x {Data, MacCommands} (+ no-payload) with random contents/keys/counters from the boundary set, through DefaultCrypto and DefaultNetworkCrypto, exact/short/long buffers; refusal grid (FOpts 16/17 and far beyond the limit: 18..65552 bytes incl. the lengths that wrap to 0..15 mod 256 / mod 65536, FOpts with port 0, missing AppSKey, short buffers); proptest-random descriptions; a grid of data and join frames built with a user-supplied Crypto implementation that honours exactly the documented one-block-per-call contract; JoinRequest/JoinAccept descriptions (all DLSettings/RxDelay bytes, CFList none/type0/type1). Non-trivial: payload >= 17 bytes (>= 2 keystream blocks) or FCnt >= 2^16 or FOpts non-empty or a refusal case or JoinAccept with CFList; distinct by hash of the full case".into();
     ctx.assumptions = vec![
         "reference codec (verif-core/src/oracle/refcodec.rs, aes.rs) written from FIPS-197, RFC 4493 and the LoRaWAN 1.0.x specification; self-tested against published vectors at start".into(),
         "FCtrl bit 6 is written on uplinks only and bit 4 on downlinks only, as the builder documents".into(),
@@ -261,6 +261,60 @@ pub fn run(ctx: &mut Ctx) {
                                 let r = check_data(&d, &nwk, Some(&app), buflen, net);
                                 record(st, &d, r, || data_case(&d, &nwk, Some(&app), buflen, net));
                             }
+                        }
+                    }
+                }
+            }
+            // the same builders with a user-supplied Crypto implementation that honours exactly the
+            // documented one-block-per-call contract
+            for ftype in FType::ALL {
+                for fol in [0usize, 1, 7, 15] {
+                    for plen in [0usize, 1, 15, 16, 17, 32, 33, 100, 241, 242] {
+                        for pk in 0..3 {
+                            let (nwk, app) = (rng.key(), rng.key());
+                            let payload = match pk {
+                                0 => RefPayload::None,
+                                1 => RefPayload::Data { port: 1 + rng.below(255) as u8, data: rng.bytes(plen) },
+                                _ => RefPayload::Mac(rng.bytes(plen.min(200))),
+                            };
+                            if pk == 2 && fol > 0 {
+                                continue;
+                            }
+                            let d = DataDesc { ftype, dev_addr: rng.next_u32(), adr: rng.bool(), adr_ack_req: rng.bool(), ack: rng.bool(), f_pending: rng.bool(), fcnt: *rng.pick(&FCNT_BOUNDARIES), fopts: rng.bytes(fol), payload };
+                            st.eval();
+                            st.class("user-supplied-crypto");
+                            let case = || { let mut c = data_case(&d, &nwk, Some(&app), 300, false); c["crypto"] = json!("user-supplied, one block per call"); c };
+                            match catch(|| repo_build_data_strict(&d, &nwk, Some(&app), 300)) {
+                                Err(pm) => st.fail(Failure::panic(case(), &pm).with_fp("user-crypto/contract-breached")),
+                                Ok(Err(e)) => st.fail(Failure::new("legal-must-build", case(), format!("{e:?} with a user-supplied crypto")).with_fp("user-crypto/refused")),
+                                Ok(Ok(b)) => {
+                                    let want = encode_data(&d, &nwk, Some(&app));
+                                    if b != want {
+                                        st.fail(Failure::new("bytes-equal", case(), format!("builder {} != reference {}", hex(&b), hex(&want))).with_fp("bytes-equal/user-crypto"));
+                                    } else {
+                                        st.nt_distinct();
+                                    }
+                                }
+                            }
+                        }
+                    }
+                }
+            }
+            for i in 0..512u32 {
+                let key = rng.key();
+                let jr = JoinReqDesc { join_eui: rng.next_u64(), dev_eui: rng.next_u64(), dev_nonce: rng.next_u32() as u16 };
+                let ja = JoinAcceptDesc { join_nonce: rng.next_u32() & 0xFFFFFF, net_id: rng.next_u32() & 0xFFFFFF, dev_addr: rng.next_u32(), dl_settings: rng.next_u32() as u8, rx_delay: (i % 16) as u8,
+                    cflist: match i % 3 { 0 => None, 1 => Some(RefCfList::Type0([8671000, 8673000, 0, 8677000, 8679000])), _ => Some(RefCfList::Type1(rng.bytes(9).try_into().unwrap())) } };
+                st.eval();
+                st.class("user-supplied-crypto");
+                let case = json!({"kind":"join_user_crypto","key":hex(&key),"join_accept":ja_json(&ja),"dev_nonce":jr.dev_nonce});
+                match catch(|| (repo_build_join_request_strict(&jr, &key), repo_build_join_accept_strict(&ja, &key))) {
+                    Err(pm) => st.fail(Failure::panic(case, &pm).with_fp("user-crypto/contract-breached")),
+                    Ok((a, b)) => {
+                        if a.as_ref().ok() != Some(&encode_join_request(&jr, &key)) || b.as_ref().ok() != Some(&encode_join_accept(&ja, &key)) {
+                            st.fail(Failure::new("bytes-equal", case, format!("join frames built with a user-supplied crypto differ from the reference: {:?} / {:?}", a.map(|x| hex(&x)), b.map(|x| hex(&x)))).with_fp("bytes-equal/user-crypto"));
+                        } else {
+                            st.nt_distinct();
                         }
                     }
                 }
